@@ -3,7 +3,6 @@ package main
 // C18 — every input is answered promptly with output or a located error, never a crash.
 
 import (
-	"strconv"
 	"encoding/json"
 	"fmt"
 	"go/token"
@@ -11,6 +10,7 @@ import (
 	"os"
 	"path/filepath"
 	"regexp"
+	"strconv"
 	"strings"
 
 	"golang.org/x/tools/go/ssa"
